@@ -204,6 +204,15 @@ class FnTranslator:
     def expr(self, node, env):
         """returns (coq text, type)"""
         o = self.ops
+        # `expr_params={"<python text>": (name, type)}`: the addressed sub-expression (e.g. a
+        # subscript such as `self._queue[0][0]`, which is outside the subset) becomes a parameter
+        ep = self.spec.get("expr_params")
+        if ep and not isinstance(node, (ast.Constant, ast.Name)):
+            key = self.txt(node)
+            if key in ep:
+                name, ty = ep[key]
+                self.extra.setdefault("$ep:" + key, (name, ty))
+                return (name, ty)
         if isinstance(node, ast.Constant):
             return self.lit(node)
         if isinstance(node, ast.Name):
@@ -570,6 +579,14 @@ class FnTranslator:
         if isinstance(s, ast.Return):
             if s.value is None:
                 return self.finish(env, ("tt", "unit"))
+            if self.spec.get("ret") == "optnum":
+                # `ret="optnum"`: the function returns a number or None
+                if isinstance(s.value, ast.Constant) and s.value.value is None:
+                    return self.finish(env, ("None", "optnum"))
+                v, t = self.expr(s.value, env)
+                if t != "num":
+                    self.err(s, "optnum return of type %s" % t)
+                return self.finish(env, ("(Some %s)" % v, "optnum"))
             return self.finish(env, self.expr(s.value, env))
         if isinstance(s, ast.Raise):
             exc = s.exc
@@ -648,7 +665,9 @@ class FnTranslator:
             if k not in defaults:
                 raise Untranslatable("%s: no default for %s" % (self.where, k))
             env[k] = self.expr(defaults[k], {})
-        arg_params = [k for k in self.argnames if k not in inline_defaults]
+        # `drop_args=[...]`: arguments that are only used through declared attributes
+        # (`other.precedence`) or not at all in an addressed expression get no binder of their own
+        arg_params = [k for k in self.argnames if k not in inline_defaults and k not in spec.get("drop_args", [])]
         for k in arg_params:
             if not spec.get("only_used_args"):     # (additive, C04) path anchors may omit unused arguments
                 self.param(k)
